@@ -18,8 +18,7 @@ let show (f : 'a -> string) (r : 'a Addr.res) : string =
   match r with Addr.Ok a -> f a | Addr.Err -> "err" | Addr.Panic -> "panic"
 let okhex s = "ok:" ^ hex_of_bytes s
 
-let cmd_adrdec t =
-  let s = next_hex t in
+let adrdec_line s =
   let net = show (fun n -> string_of_int (int_of_n (Addr.n_id n))) (Addr.network_for_address d58 s) in
   let ty = show (fun n -> string_of_int (int_of_n n)) (Addr.decode_type d58 bdec bcb s) in
   let conf = show b2s (Addr.is_confidential d58 bdec bcb s) in
@@ -33,7 +32,14 @@ let cmd_adrdec t =
       (Addr.from_blech32 s) in
   let fc = show (fun ((a, k), sc) -> Printf.sprintf "ok:%s:%s:%s" (hex_of_bytes a) (hex_of_bytes k) (hex_of_bytes sc))
       (Addr.from_confidential e58 d58 bdec benc bcb s) in
-  Printf.printf "net=%s type=%s conf=%s script=%s b58=%s b58c=%s bech=%s blech=%s fc=%s\n" net ty conf script b58 b58c bech blech fc
+  Printf.sprintf "net=%s type=%s conf=%s script=%s b58=%s b58c=%s bech=%s blech=%s fc=%s" net ty conf script b58 b58c bech blech fc
+
+let cmd_adrdec t = print_endline (adrdec_line (next_hex t))
+
+(* the model is a pure function: the last answers of a history are the answers *)
+let cmd_adrhist t =
+  let s1 = next_hex t in let s2 = next_hex t in
+  print_endline (adrdec_line s1 ^ " ;; " ^ adrdec_line s2)
 
 let cmd_adrenc t =
   let kind = next t in
@@ -125,6 +131,6 @@ let cmd_adrconst t =
   Printf.printf "x=%s xt=%s xb=%s y=%s yt=%s\n" (hex_of_bytes x) (ty2 x) xb (hex_of_bytes y) (ty2 y)
 
 let () =
-  register "adrcase" cmd_adrcase; register "adrconst" cmd_adrconst;
+  register "adrhist" cmd_adrhist; register "adrcase" cmd_adrcase; register "adrconst" cmd_adrconst;
   register "adrdec" cmd_adrdec; register "adrenc" cmd_adrenc; register "adrpay" cmd_adrpay;
   register "adrscr" cmd_adrscr; register "adrform" cmd_adrform
